@@ -122,4 +122,4 @@ fn inner_disease_enrichment<ID: AnnotationId>(
 
 #[cfg(kani)]
 #[path = "/verif/kani/hypergeom_disease.rs"]
-mod verif_kani;
+pub(crate) mod verif_kani;
